@@ -11,6 +11,7 @@ TABLE = {
     "C03": ("p_routing", "model_checking"),
     "C04": ("p_routing", "model_checking"),
     "C05": ("p_ring", "model_checking"),
+    "C08": ("p_life", "model_checking"),
 }
 
 if __name__ == "__main__":
